@@ -124,7 +124,7 @@ def acceptsFrom (d : DFA σ α) (q : σ) (w : List α) : Bool := d.isFinal (d.ru
 
 theorem accepts_eq_acceptsFrom (d : DFA σ α) (w : List α) : d.accepts w = d.acceptsFrom d.init w := rfl
 
-theorem row_mem_trans {d : DFA σ α} {q : σ} (h : d.row q ≠ []) : (q, d.row q) ∈ d.trans := by
+theorem row_mem_trans_of_ne_nil {d : DFA σ α} {q : σ} (h : d.row q ≠ []) : (q, d.row q) ∈ d.trans := by
   unfold row row? at *
   cases hr : alookup q d.trans with
   | none => simp [hr] at h
@@ -133,19 +133,19 @@ theorem row_mem_trans {d : DFA σ α} {q : σ} (h : d.row q ≠ []) : (q, d.row 
 theorem row_keys_nodup {d : DFA σ α} (hd : d.IsDict) (q : σ) : (akeys (d.row q)).Nodup := by
   by_cases h : d.row q = []
   · rw [h]; exact List.nodup_nil
-  · exact hd.rowKeys _ (row_mem_trans h)
+  · exact hd.rowKeys _ (row_mem_trans_of_ne_nil h)
 
 theorem row_keys_syms {d : DFA σ α} (wf : d.WF) {q : σ} {a : α} (ha : a ∈ akeys (d.row q)) :
     a ∈ d.syms := by
   by_cases h : d.row q = []
   · rw [h] at ha; simp [akeys] at ha
-  · exact wf.symsOk _ (row_mem_trans h) a ha
+  · exact wf.symsOk _ (row_mem_trans_of_ne_nil h) a ha
 
 theorem row_vals_states {d : DFA σ α} (wf : d.WF) {q t : σ} (ht : t ∈ avals (d.row q)) :
     t ∈ d.states := by
   by_cases h : d.row q = []
   · rw [h] at ht; simp [avals] at ht
-  · exact wf.tgtOk _ (row_mem_trans h) t ht
+  · exact wf.tgtOk _ (row_mem_trans_of_ne_nil h) t ht
 
 /-! ### level 0 and the shape of a level -/
 
